@@ -976,3 +976,105 @@ func isZero(v ssa.Value) bool {
 	k, ok := constInt(v)
 	return ok && k == 0
 }
+
+
+// callChain: the call instructions leading from `from` down to `to` when
+// every level has exactly one static call site of the next function (a
+// function split into stages); empty when from == to.
+func callChain(p *Prog, from, to *ssa.Function, depth int) ([]ssa.Instruction, bool) {
+	if from == to {
+		return nil, true
+	}
+	if depth == 0 {
+		return nil, false
+	}
+	sites := p.CallsToFn(to)
+	if len(sites) != 1 {
+		return nil, false
+	}
+	up, ok := callChain(p, from, sites[0].Fn, depth-1)
+	if !ok {
+		return nil, false
+	}
+	return append(up, sites[0].Instr), true
+}
+
+
+// selectCaseChan: when e is the edge taken because a select chose one of its
+// cases (go/ssa lowers `case <-ch:` to `if index == k`), the struct field the
+// channel of that case is read from.
+func selectCaseChan(e condEdge) *types.Var {
+	if e.Idx != 0 {
+		return nil
+	}
+	bo, ok := e.If.Cond.(*ssa.BinOp)
+	if !ok || bo.Op != token.EQL {
+		return nil
+	}
+	ex, ok := bo.X.(*ssa.Extract)
+	if !ok || ex.Index != 0 {
+		return nil
+	}
+	sel, ok := ex.Tuple.(*ssa.Select)
+	if !ok {
+		return nil
+	}
+	idx, isK := constInt(bo.Y)
+	if !isK || int(idx) >= len(sel.States) || idx < 0 {
+		return nil
+	}
+	return fieldOrigin(sel.States[idx].Chan)
+}
+
+// pollHelperTrueOn: call invokes a function, method or closure whose whole
+// body is one non-blocking select, and which returns true exactly when the
+// case of the channel field called name was taken (`isClosed()`).
+func pollHelperTrueOn(call *ssa.Call, name string) bool {
+	sc := call.Common().StaticCallee()
+	if sc == nil || sc.Blocks == nil || len(sc.Blocks) > 8 || sc.Signature.Results().Len() != 1 {
+		return false
+	}
+	nsel, other := 0, false
+	instrs(sc, func(_ *ssa.BasicBlock, _ int, y ssa.Instruction) {
+		switch z := y.(type) {
+		case *ssa.Select:
+			nsel++
+			if z.Blocking {
+				other = true
+			}
+		case *ssa.Call, *ssa.Go, *ssa.Send, *ssa.Store:
+			other = true
+		}
+	})
+	if nsel != 1 || other {
+		return false
+	}
+	sawTrue := false
+	ok := true
+	instrs(sc, func(b *ssa.BasicBlock, _ int, y ssa.Instruction) {
+		r, isRet := y.(*ssa.Return)
+		if !isRet {
+			return
+		}
+		k, isK := retVal(r, 0).(*ssa.Const)
+		if !isK || k.Value == nil {
+			ok = false
+			return
+		}
+		onCase := false
+		for _, e := range controllingEdges(b) {
+			if f := selectCaseChan(e); f != nil && f.Name() == name {
+				onCase = true
+			}
+		}
+		if k.Value.String() == "true" {
+			sawTrue = true
+			if !onCase {
+				ok = false
+			}
+		} else if onCase {
+			ok = false
+		}
+	})
+	return ok && sawTrue
+}
